@@ -1,10 +1,119 @@
 import CoxeterVerif.Driver.Proto
+import CoxeterVerif.Model.Tabulated
+import CoxeterVerif.Spec.Textbook
 
 namespace OpsC18
+open Tab
+
+/-- a string sent as a length-prefixed list of code points -/
+def rdStr (c : Ctx) : Rd String := do
+  let cs ← Rd.list c (Rd.nat c)
+  pure (String.ofList (cs.map Char.ofNat))
+
+def outStr (s : String) : String :=
+  let cs := s.toList
+  " ".intercalate (s!"i{cs.length}" :: cs.map fun ch => s!"i{ch.toNat}")
+
+def rdP3 (c : Ctx) : Rd P3 := do
+  let x ← Rd.int c; let y ← Rd.int c; let z ← Rd.int c; pure ⟨x, y, z⟩
+
+/-- entry: verts (scaled ints), faces -/
+def rdEntry (c : Ctx) : Rd Entry := do
+  let vs ← Rd.list c (rdP3 c)
+  let fs ← Rd.list c (Rd.list c (Rd.nat c))
+  pure { name := "", type := "ConvexPolyhedron", verts := vs, faces := fs }
+
+/-- record of a synthetic family: name, type (empty list of code points + flag), rounding flag;
+    the payload is the record's position -/
+def rdRecord (c : Ctx) (i : Nat) : Rd (String × GsdSpec Nat) := do
+  let name ← rdStr c
+  let hasType ← Rd.nat c
+  let type ← rdStr c
+  let rounding ← Rd.nat c
+  pure (name, { type := if hasType = 1 then some type else none, verts := i, rounding := rounding = 1 })
+
+def rdFamily (c : Ctx) : Rd (Family Nat) := do
+  let n ← Rd.nat c
+  let mut out : Array (String × GsdSpec Nat) := #[]
+  for i in [0:n] do
+    out := out.push (← rdRecord c i)
+  pure ⟨out.toList⟩
+
+/-- class code, payload -/
+def outShape : Except String (Shape Nat) → String
+  | .error e => s!"i-1 {outStr e}"
+  | .ok (.convexPolyhedron v) => s!"i0 i{v}"
+  | .ok (.convexSpheropolyhedron v) => s!"i1 i{v}"
+  | .ok (.otherClass _ v) => s!"i2 i{v}"
+
+def rdMap (c : Ctx) : Rd (List (String × List String)) :=
+  Rd.list c (do let k ← rdStr c; let vs ← Rd.list c (rdStr c); pure (k, vs))
+
+def outItems (l : List RepoItem) : String :=
+  " ".intercalate (s!"i{l.length}" :: l.map fun
+    | .tabulated f => s!"i0 {outStr f}"
+    | .familyClass f => s!"i1 {outStr f}")
+
+def outSolid (s : Textbook.Solid) : String :=
+  s!"{outStr s.name} i{s.v} i{s.e} i{s.f} i{s.faces.length} " ++
+    " ".intercalate (s.faces.map fun kc => s!"i{kc.1} i{kc.2}") ++ s!" {Out.bool s.consistent}"
 
 /-- driver ops of C18. `none` = unknown op. -/
 def run (α : Type) [Scalar α] [Codec α] (op : String) (c : Ctx) : Option (Rd String) :=
   match op with
+  | "c18.check" => some do
+      -- in: verts faces ; out: the spec predicates (fast and reference versions), counts, 6·vol
+      let e ← rdEntry c
+      let bs := [usesExactlyVerts e, usesExactlyVertsRef e, closedOriented e, closedOrientedRef e,
+                 eulerOk e, convexOk e, convexOkRef e, positiveVolume e, unitVolumeOk e,
+                 equalEdgesOk e, equalDiagonalsOk e, insphereOk e, polyhedronOk e]
+      let census := (List.range 13).map fun k => Int.ofNat (facesOfSize e k)
+      pure s!"{Out.bools bs} i{numV e} i{numE2 e} i{numF e} i{vol6 e} {Out.ints census}"
+  | "c18.table" => some do
+      -- in: which (0 platonic, 1 archimedean, 2 catalan, 3 johnson, 4 plain), name, verts faces
+      -- out: the per-table obligation and its textbook part
+      let which ← Rd.nat c
+      let name ← rdStr c
+      let e0 ← rdEntry c
+      let e := { e0 with name := name }
+      let rows := match which with
+        | 0 => Textbook.platonic | 1 => Textbook.archimedean | 2 => Textbook.catalan | _ => []
+      let ok := match which with
+        | 0 => platonicOk e | 1 => archimedeanOk e | 2 => catalanOk e | 3 => johnsonOk e | _ => plainOk e
+      pure s!"{Out.bool ok} {Out.bool (textbookOk rows e)}"
+  | "c18.same" => some do
+      -- in: verts verts ; out: sameVerts
+      let a ← Rd.list c (rdP3 c)
+      let b ← Rd.list c (rdP3 c)
+      pure (Out.bool (sameVerts a b))
+  | "c18.textbook" => some do
+      -- in: which ; out: the hand-entered rows of Spec/Textbook.lean
+      let which ← Rd.nat c
+      let rows := match which with
+        | 0 => Textbook.platonic | 1 => Textbook.archimedean | _ => Textbook.catalan
+      pure (" ".intercalate (s!"i{rows.length}" :: rows.map outSolid))
+  | "c18.family" => some do
+      -- in: records, query ; out: names-iteration (class, payload)*, then get_shape(query)
+      let f ← rdFamily c
+      let q ← rdStr c
+      let it := f.iter.map fun kv => s!"{outStr kv.1} {outShape kv.2}"
+      pure (" ".intercalate (s!"i{f.names.length}" :: it ++ [outShape (f.getShape q)]))
+  | "c18.doi" => some do
+      -- in: _DOI_TO_FILE, _DOI_TO_FAMILY, keys looked up in sequence ;
+      -- out: per key: (0 items | 1 error-kind), store size afterwards
+      let toFile ← rdMap c
+      let toFamily ← rdMap c
+      let keys ← Rd.list c (rdStr c)
+      let m : DoiMaps := ⟨toFile, toFamily⟩
+      let mut store : List (String × List RepoItem) := []
+      let mut out : Array String := #[]
+      for k in keys do
+        let (r, s') := keyedGet m store k
+        store := s'
+        match r with
+        | .ok items => out := out.push s!"i0 {outItems items} i{store.length}"
+        | .error e => out := out.push s!"i1 {outStr e} i{store.length}"
+      pure (" ".intercalate out.toList)
   | _ => none
 
 end OpsC18
